@@ -233,8 +233,8 @@ package rapid
 //@ event SubscribedToShutdown = ret core.(*ExternalAgent).IsSubscribed when r0
 //@ event NotSubscribedToShutdown = ret core.(*ExternalAgent).IsSubscribed when !r0
 //@ event ShutdownSubscriptionAsked = call core.(*ExternalAgent).IsSubscribed when a1 == core.ShutdownEvent
-//@ event SpawnGraceful = call rapid.(*shutdownContext).shutdownAgents$1
-//@ event SpawnKill = call rapid.(*shutdownContext).shutdownAgents$2
+//@ event SpawnGraceful = go rapid.(*shutdownContext).shutdownAgents$1
+//@ event SpawnKill = go rapid.(*shutdownContext).shutdownAgents$2
 //@ event ExternalAgentsListed = ret core.(RegistrationService).GetExternalAgents
 //@ event OwnWaitContext = call context.WithCancel
 
